@@ -1,4 +1,4 @@
-import TracklibVerif.Lemmas.FeaturesFrame
+import TracklibVerif.Lemmas.FeaturesResult
 /-! # C01 — the feature table stays aligned with the observations under any operation history
 
 Property theorems only. `St` is the model of the code (`Model/Features.lean`: the dict name → column index and
@@ -288,6 +288,48 @@ theorem step_frame (o : Ops V) (op : Op V) (st : St V) (h : Inv n st) (hok : OpO
 theorem sum_keeps_table (o : Ops V) (inp : String) (st : St V) (h : Inv n st) (m : String) :
     read o (step o (.sum inp) st).2 m = read o st m :=
   (step_frame o (.sum inp) st h trivial m (fun hf => hf)).1
+
+/-- reading `out` after a void operator that returned `temp`, from the corresponding fact on the specification -/
+theorem read_of_lookup (o : Ops V) (st' : St V) (h' : Inv n st') (out : String) (temp : List V)
+    (hr : reserved out = false) (hl : lookup (abs st').cols out = some temp) : read o st' out = .ok temp := by
+  rw [read_abs o h', aread_feature o _ hr, hl]
+
+/-- T6a: when a binary void operator (ADDER, SUBSTRACTER, MULTIPLIER) returns the list `temp`, the output
+feature reads exactly `temp` (whether it was created by the call or overwritten, and even if it is also an input). -/
+theorem binaryVoid_read_back (o : Ops V) (k : BOp) (in1 in2 : String) (out : Option String) (st : St V)
+    (h : Inv n st) (temp : List V) (hres : (step o (.binaryVoid k in1 in2 out) st).1 = .ok (.col temp)) :
+    read o (step o (.binaryVoid k in1 in2 out) st).2 (out.getD in1) = .ok temp := by
+  have href := step_refines o (.binaryVoid k in1 in2 out) st h trivial
+  rw [hres] at href
+  obtain ⟨l, a1, h1, h2⟩ := bind_ok href
+  have : ((Except.ok (Ret.col l) : Except Err (Ret V)), a1) = (Except.ok (Ret.col temp), abs (step o (.binaryVoid k in1 in2 out) st).2) := h2
+  cases this
+  obtain ⟨hr, hl⟩ := binaryVoid_result o k in1 in2 _ _ _ _ (ainv_abs h) h1
+  exact read_of_lookup o _ (inv_step o (.binaryVoid k in1 in2 out) st h trivial) _ _ hr hl
+
+/-- T6b: the same for the scalar void operators (SCALAR_ADDER, SCALAR_SUBSTRACTER, SCALAR_REV_SUBSTRACTER, SCALAR_MULTIPLIER). -/
+theorem scalarVoid_read_back (o : Ops V) (k : SOp) (inp : String) (arg : V) (out : Option String) (st : St V)
+    (h : Inv n st) (temp : List V) (hres : (step o (.scalarVoid k inp arg out) st).1 = .ok (.col temp)) :
+    read o (step o (.scalarVoid k inp arg out) st).2 (out.getD inp) = .ok temp := by
+  have href := step_refines o (.scalarVoid k inp arg out) st h trivial
+  rw [hres] at href
+  obtain ⟨l, a1, h1, h2⟩ := bind_ok href
+  have : ((Except.ok (Ret.col l) : Except Err (Ret V)), a1) = (Except.ok (Ret.col temp), abs (step o (.scalarVoid k inp arg out) st).2) := h2
+  cases this
+  obtain ⟨hr, hl⟩ := scalarVoid_result o k inp arg _ _ _ _ (ainv_abs h) h1
+  exact read_of_lookup o _ (inv_step o (.scalarVoid k inp arg out) st h trivial) _ _ hr hl
+
+/-- T6c: the same for the unary void operators (INTEGRATOR, DIFFERENTIATOR). -/
+theorem unaryVoid_read_back (o : Ops V) (k : UOp) (inp : String) (out : Option String) (st : St V)
+    (h : Inv n st) (temp : List V) (hres : (step o (.unaryVoid k inp out) st).1 = .ok (.col temp)) :
+    read o (step o (.unaryVoid k inp out) st).2 (out.getD inp) = .ok temp := by
+  have href := step_refines o (.unaryVoid k inp out) st h trivial
+  rw [hres] at href
+  obtain ⟨l, a1, h1, h2⟩ := bind_ok href
+  have : ((Except.ok (Ret.col l) : Except Err (Ret V)), a1) = (Except.ok (Ret.col temp), abs (step o (.unaryVoid k inp out) st).2) := h2
+  cases this
+  obtain ⟨hr, hl⟩ := unaryVoid_result o k inp _ _ _ _ (ainv_abs h) h1
+  exact read_of_lookup o _ (inv_step o (.unaryVoid k inp out) st h trivial) _ _ hr hl
 
 /-! ## Non-vacuity: an explicit history with delete-then-recreate, over the integers -/
 
